@@ -662,7 +662,17 @@ func (o *orbitDB) DetermineAddress(ctx context.Context, name string, storeType s
 	}
 
 	// Create the database address
-	return address.Parse(path.Join("/orbitdb", manifestHash.String(), name))
+	addr, err := address.Parse(path.Join("/orbitdb", manifestHash.String(), name))
+	if err != nil {
+		return nil, err
+	}
+
+	// path.Join cleans the path: ".." segments in the name must not replace the manifest hash
+	if !addr.GetRoot().Equals(manifestHash) {
+		return nil, fmt.Errorf("invalid database name: %s", name)
+	}
+
+	return addr, nil
 }
 
 func (o *orbitDB) loadCache(directory string, dbAddress address.Address) (datastore.Datastore, error) {
